@@ -566,7 +566,7 @@ class FilesParagraph(deb822.RestrictedWrapper):
         pat = self.files_pattern()
         if pat is None:
             return False
-        return pat.match(filename) is not None
+        return pat.fullmatch(filename) is not None
 
     files = deb822.RestrictedField(
         'Files', from_str=_SpaceSeparated.from_str,
